@@ -82,7 +82,15 @@ def dynamic_id_kinds(protos, max_pages):
 
 
 def instantiate(protos, combo):
-    return [copy.copy(protos[k]) for k in combo]   # distinct objects per use
+    """Distinct objects per use, each with its own metadata and groups (a resolver that writes into a
+    citation must not leak into other sequences and hide itself)."""
+    out = []
+    for k in combo:
+        c = copy.copy(protos[k])
+        c.metadata = copy.copy(c.metadata)
+        c.groups = dict(c.groups)
+        out.append(c)
+    return out
 
 
 # focus alphabets: longer exhaustive enumeration over the kinds that interact in one mechanism
@@ -307,7 +315,9 @@ def resolution_doc(rng):
     for _ in range(rng.randint(2, 10)):
         P, D, rep, vol, page = rng.choice(cases)
         r = rng.random()
-        if r < 0.3:
+        if r < 0.05:
+            parts.append(f"The rule was stated in {vol} {rep} {page} ({rng.randint(1950, 2020)})")   # bare full citation
+        elif r < 0.3:
             parts.append(f"{P} v. {D}, {vol} {rep} {page} ({rng.randint(1950, 2020)})")
         elif r < 0.45:
             parts.append(f"{rng.choice([P, D, 'Foo'])}, {vol} {rep} at {page + rng.randint(0, 30)}")
